@@ -78,5 +78,5 @@ def random_forest(rnd, n):
 	taxa = []
 	for i in range(n):
 		parent = rnd.choice([None] + list(range(i))) if i else None
-		taxa.append({'parent': parent, 'thr': rnd.choice([None, None, .1, .3, .5, .7, .9]), 'report': rnd.random() < .7})
+		taxa.append({'parent': parent, 'thr': rnd.choice([None, None, 0.0, .1, .3, .5, .7, .9, 1.0]), 'report': rnd.random() < .7})
 	return taxa
